@@ -98,8 +98,12 @@ class _ErrorHandler:
                 ):
                     raise
                 elif issubclass(error, xml.dom.DOMException):
-                    error.line = line
-                    error.col = col
+                    # (on the instance: set on the class they would change
+                    # with every later exception of that class)
+                    exception = error(msg)
+                    exception.line = line
+                    exception.col = col
+                    raise exception
                 raise error(msg)
             else:
                 self._logcall(msg)
